@@ -612,6 +612,64 @@ pub fn gen_streams(out: &mut Out, thorough: bool, opts: &[&str], focus: &str) {
         out.count_n("stream_char_aliasing", n);
         out.exhaustive.push("every character position of 3 documents covering every token type x (the character + 0x100/0x200/0x300/0x2000/0xff00/0x10000/0x20000/0x100000, and 20 Unicode lookalikes of whitespace, digits, letters, quotes, separators, controls): replaced, and every third also inserted".into());
     }
+    // (k) long tokens around internal size thresholds (inline/heap switches of SmallString/SmallVec,
+    // stack buffers, chunked copies): strings and keys of L+d plain characters followed by a
+    // 1/2/3/4-byte character, an escape or a surrogate pair, for L at the usual powers of two;
+    // numbers with that many digits in each part
+    {
+        let mut n = 0u64;
+        let thresholds: &[usize] = if thorough { &[8, 16, 24, 32, 64, 128, 256, 512, 1024, 4096] } else { &[16, 32, 64, 128, 256] };
+        let tails = ["", "é", "€", "😀", "\\n", "\\u00e9", "\\ud83d\\ude00", "\u{7f}", "é€😀é€😀"];
+        for &thr in thresholds {
+            for d in 0..8usize {
+                let len = thr + d - 4;
+                for (ti, tail) in tails.iter().enumerate() {
+                    for fill in ["a", "é"] {
+                        if fill == "é" && (ti % 3 != 0) { continue; }
+                        let body: String = fill.repeat(len);
+                        let o = opts[(thr + d + ti) % opts.len()];
+                        l(req_str(&format!("\"{}{}z\"", body, tail), o), out);
+                        l(req_str(&format!("{{\"{}{}z\":[\"{}\"],\"{}{}z\":0}}", body, tail, body, body, tail), o), out);
+                        n += 2;
+                    }
+                }
+                let digits: String = "7".repeat(len);
+                l(req_str(&format!("[-{}.{}e+{},{}]", digits, digits, "1".repeat(len.min(40)), digits), opts[0]), out);
+                n += 1;
+            }
+        }
+        out.count_n("stream_threshold_straddle", n);
+        out.exhaustive.push(format!("strings, keys (also duplicated, looked up) and numbers whose plain run has length L-4..L+3 for L in {:?}, followed by each of 9 tails (1/2/3/4-byte characters, escapes, a surrogate pair)", thresholds));
+    }
+    // (l) a pending high surrogate followed by EVERY \\uXXXX code unit: where exactly the low-surrogate
+    // range begins and ends decides pair / lone high + something / error
+    {
+        let highs: &[u32] = if thorough || focus == "C12" { &[0xd800, 0xdbff, 0xd83d] } else { &[0xd800] };
+        let os: Vec<&str> = if thorough || focus == "C12" { opts.to_vec() } else { vec![opts[0], opts[opts.len() - 1]] };
+        let stride = if thorough || focus == "C12" || focus == "C02" { 1 } else { 5 };
+        let mut n = 0u64;
+        for &h in highs {
+            for o in &os {
+                let mut cu = (out.seed % stride as u64) as u32;
+                while cu < 0x10000 {
+                    l(req_str(&format!("\"\\u{:04x}\\u{:04x}\"", h, cu), o), out);
+                    n += 1;
+                    cu += stride;
+                }
+            }
+        }
+        // boundary code units in all pairs and triples, every option record, value and key position
+        let bnd = ["\\ud7ff", "\\ud800", "\\udbff", "\\udc00", "\\udfff", "\\ue000", "\\uffff", "\\u0000", "x"];
+        for o in opts {
+            for a in bnd { for b in bnd { for c in bnd {
+                l(req_str(&format!("\"{}{}{}\"", a, b, c), o), out);
+                l(req_str(&format!("{{\"{}{}{}\":1}}", a, b, c), o), out);
+                n += 2;
+            } } }
+        }
+        out.count_n("stream_high_then_any_unit", n);
+        out.exhaustive.push(format!("high surrogate {:x?} followed by every \\uXXXX (stride {}) under {} option records; all triples over the boundary units {:?} under all option records", highs, stride, os.len(), bnd));
+    }
     // (i) UTF-8 byte sequences inside a string
     let mut b0 = 0x80u32;
     while b0 < 0x100 {
